@@ -1,6 +1,8 @@
 import MpfVerif.Lemmas.Show
 import MpfVerif.Lemmas.ShowEvents
 import MpfVerif.Lemmas.ShowExact
+import MpfVerif.Lemmas.ShowKey
+import MpfVerif.Lemmas.ShowKeyEvents
 /-!
 # C17 — Shows run on schedule without drift and clean up after themselves
 
@@ -165,6 +167,115 @@ theorem nothing_after_stopped (ops : List Op) (s : RS) (hs : s.stopped = true) (
   simp only [Obs.ev.injEq] at this
   exact he this
 
+/-! ### replacement in sync: several instances under one show-player key (`Model/ShowKey.lean`)
+
+`ShowKey.run {} ops` is a show-player key after an arbitrary sequence of `play` requests (each creates a new instance; one
+that is played with `sync_ms` over an instance that still runs holds the *deferred stop* of that instance), requests for
+the key (`req`: stop — also the end of the mode that owns the show player —, pause, resume, advance, step_back, speed
+update; they reach the newest instance) and timer callbacks of any instance (`fire i t`).  `insts` lists all instances
+ever created, newest first. -/
+
+open MpfVerif.ShowKey in
+/-- The deferred stop is never lost: after every sequence of plays, requests and timer callbacks, for every instance
+`x` ever created under the key — as soon as `x` has started (its sync timer ran, or a resume/advance/step_back request
+started it) **or** has been stopped (also: stopped before it ever started, e.g. after a pause cancelled its sync timer)
+every instance created before it is stopped: a replaced show never runs on beside / after its replacement. -/
+theorem replaced_show_stopped (ops : List KOp) (pre : List Inst) (x : Inst) (rest : List Inst)
+    (h : (ShowKey.run {} ops).1.insts = pre ++ x :: rest) (hx : x.rs.started = true ∨ x.rs.stopped = true) :
+    ∀ y ∈ rest, y.rs.stopped = true := by
+  have hg := run_good ops {} trivial
+  rw [h] at hg
+  have hg' := good_suffix pre _ hg
+  apply hg'.2.2.1
+  cases hr : x.replaces with
+  | none => rfl
+  | some j =>
+    have := hg'.2.1 (by rw [hr]; rfl)
+    rcases hx with hx | hx
+    · rw [this.1] at hx; cases hx
+    · rw [this.2.1] at hx; cases hx
+
+open MpfVerif.ShowKey in
+/-- Events once, for every instance of the key: in the projection of the key's trace on the instance with id
+`rest.length` (`proj`: what that `RunningShow` itself did and posted), `stopped` occurs exactly once if the instance is
+stopped and not at all while it runs — a deferred stop, a replacement at once, a stop request, a completion and any later
+request together never post it twice —, `played` exactly once iff the instance has started, `completed` at most once and
+only with `stopped`. -/
+theorem instance_events_once (ops : List KOp) (pre : List Inst) (x : Inst) (rest : List Inst)
+    (h : (ShowKey.run {} ops).1.insts = pre ++ x :: rest) :
+    cntE .stopped (proj rest.length (ShowKey.run {} ops).2) = (if x.rs.stopped then 1 else 0) ∧
+    cntE .played (proj rest.length (ShowKey.run {} ops).2) = (if x.rs.started then 1 else 0) ∧
+    cntE .completed (proj rest.length (ShowKey.run {} ops).2) ≤ cntE .stopped (proj rest.length (ShowKey.run {} ops).2) := by
+  have hl := (run_led ops {} [] ⟨trivial, by intro y hy; simp at hy⟩).1
+  rw [List.nil_append, h] at hl
+  obtain ⟨n0, a, b, c, _⟩ := (led_suffix _ pre _ hl).1
+  exact ⟨b, a, c⟩
+
+open MpfVerif.ShowKey in
+/-- **The replaced show is stopped exactly once.**  Whenever a replacement `x` has started *or* has been stopped
+(before or after it started), every instance `y` created before it under the key — the show it replaced, and
+transitively what that one had replaced — is stopped (never both running), and `y`'s `stopped` event occurs exactly once
+in the whole trace (never stopped twice: not by the deferred stop *and* a later stop request / timer / replacement). -/
+theorem replaced_show_stopped_exactly_once (ops : List KOp) (pre : List Inst) (x : Inst) (mid : List Inst) (y : Inst)
+    (rest : List Inst) (h : (ShowKey.run {} ops).1.insts = pre ++ x :: (mid ++ y :: rest))
+    (hx : x.rs.started = true ∨ x.rs.stopped = true) :
+    y.rs.stopped = true ∧ cntE .stopped (proj rest.length (ShowKey.run {} ops).2) = 1 := by
+  have hy := replaced_show_stopped ops pre x _ h hx y (by simp)
+  have h' : (ShowKey.run {} ops).1.insts = (pre ++ x :: mid) ++ y :: rest := by rw [h]; simp
+  have := (instance_events_once ops _ y rest h').1
+  rw [hy] at this
+  exact ⟨hy, this⟩
+
+open MpfVerif.ShowKey in
+/-- …and an instance that still holds a deferred stop has not started and is not stopped (it is a replacement waiting
+for its sync point), and what it holds is the stop of the instance created just before it. -/
+theorem replaces_previous (ops : List KOp) (pre : List Inst) (x : Inst) (rest : List Inst) (j : Nat)
+    (h : (ShowKey.run {} ops).1.insts = pre ++ x :: rest) (hj : x.replaces = some j) :
+    x.rs.started = false ∧ x.rs.stopped = false ∧ j + 1 = rest.length := by
+  have hg := run_good ops {} trivial
+  rw [h] at hg
+  have hg' := (good_suffix pre _ hg).2.1 (by rw [hj]; rfl)
+  refine ⟨hg'.1, hg'.2.1, ?_⟩
+  have h1 := hg'.2.2.1
+  rw [hj] at h1
+  have h2 : rest.length ≠ 0 := fun h0 => hg'.2.2.2 (List.eq_nil_of_length_eq_zero h0)
+  simp only [Option.some.injEq] at h1
+  omega
+
+open MpfVerif.ShowKey in
+/-- Never both running after the key is stopped: whatever happened before (replacements waiting for their sync point,
+paused, advanced, chains of them), after a stop request for the key (or the end of its mode: `clear_context` stops the
+instance in the dict) **no** instance ever created under the key runs. -/
+theorem key_stopped_nothing_runs (ops : List KOp) (t : Nat) :
+    ∀ y ∈ (ShowKey.run {} (ops ++ [.req (.stop t)])).1.insts, y.rs.stopped = true := by
+  rw [run_append]
+  simp only [ShowKey.run, ShowKey.step, isReq, if_true]
+  have hg := run_good ops {} trivial
+  have hk := run_known ops {} (by intro y hy; simp at hy)
+  generalize (ShowKey.run {} ops).1 = s1 at hg hk
+  cases hl : s1.insts with
+  | nil => intro y hy; simp [stepAt] at hy
+  | cons x rest =>
+    rw [hl] at hg hk
+    obtain ⟨y, rest', he, hy⟩ := stepAt_head (.stop t) x rest
+    have hg2 := (stepAt_good ((x :: rest).length - 1) (.stop t) rfl (x :: rest) hg).1
+    rw [he] at hg2 ⊢
+    have hs : y.rs.stopped = true := by rw [hy]; exact stop_req_stops x.rs t (hk x List.mem_cons_self)
+    exact (allStopped_cons _ _).mpr ⟨hs, (good_stopped_head y rest' hg2 hs).2⟩
+
+open MpfVerif.ShowKey in
+/-- `context_removed` for every instance of the key (the replaced ones included): whenever an instance is stopped — by
+request, by replacement at once, by the deferred stop, or by completing — its context is cleared in every player it
+used and it has no live timer; and no instance ever has more than one live timer. -/
+theorem context_removed_all (ops : List KOp) : ∀ x ∈ (ShowKey.run {} ops).1.insts,
+    x.rs.timers.length ≤ 1 ∧ (x.rs.stopped = true → x.rs.dirty = false ∧ x.rs.timers = []) := by
+  intro x hx
+  have hi := good_mem _ (run_good ops {} trivial) x hx
+  refine ⟨?_, fun hs => ⟨(hi.2 hs).2, (hi.2 hs).1⟩⟩
+  rcases hi.1 with h | ⟨id, w, ht, _⟩
+  · rw [h]; simp
+  · rw [ht]; simp
+
 /-! ### the hypotheses are satisfiable on non-trivial runs (kernel evaluation) -/
 
 example : effs (run {} (.play [8, 16, 8] 2 1 none 2 true false 0 64 :: fires [72, 76, 81, 200, 201])).2 =
@@ -187,5 +298,23 @@ example : (run {} [.play [8, 8] 1 1 (some 0) 5 true false 0 64]).2 = [.ev .stopp
 -- a synchronised show advanced before its start is started by the request: `played` is posted (the repaired code)
 example : (run {} [.play [8, 8] 1 1 none 1 true false 32 65, .advance 70, .fire 78, .stop 80]).2 =
     [.eff 0 70, .ev .played, .eff 1 78, .clr, .ev .stopped] := by decide
+
+-- replacement in sync: A runs (instance 0); B is played with sync 32 over it at 75 and waits; a pause cancels B's sync
+-- timer; the stop request then stops A first (the deferred stop), then B: nothing runs any more
+open MpfVerif.ShowKey in
+example : (ShowKey.run {} [.play [8, 8] 1 1 none 1 true false 0 64, .fire 0 72, .play [4, 4] 1 1 none 1 true false 32 75,
+      .fire 0 80, .req (.pause 82), .req (.stop 85)]).2 =
+    [(0, .eff 0 64), (0, .ev .played), (0, .eff 1 72), (0, .eff 0 80), (0, .ev .looped), (1, .ev .paused),
+     (0, .clr), (0, .ev .stopped), (1, .ev .stopped)] := by decide
+-- ... or B starts at its sync point 96: A is stopped in the same callback, before B's first step
+open MpfVerif.ShowKey in
+example : (ShowKey.run {} [.play [8, 8] 1 1 none 1 true false 0 64, .play [4, 4] 1 1 none 1 true false 32 75,
+      .fire 1 96]).2 =
+    [(0, .eff 0 64), (0, .ev .played), (0, .clr), (0, .ev .stopped), (1, .eff 0 96), (1, .ev .played)] := by decide
+-- a chain: three waiting replacements over a running show, released by one stop request (oldest first)
+open MpfVerif.ShowKey in
+example : ((ShowKey.run {} [.play [8] 1 1 none 1 true false 0 64, .play [8] 1 1 none 1 true false 32 65,
+      .play [8] 1 1 none 1 true false 32 66, .play [8] 1 1 none 1 true false 32 67, .req (.stop 70)]).2.map (·.1)) =
+    [0, 0, 0, 0, 1, 2, 3] := by decide
 
 end MpfVerif.C17
